@@ -178,7 +178,7 @@ func convertToString(val reflect.Value, options multiTag) (string, error) {
 func convertUnmarshal(val string, retval reflect.Value) (bool, error) {
 	if retval.Type().NumMethod() > 0 && retval.CanInterface() {
 		if unmarshaler, ok := retval.Interface().(Unmarshaler); ok {
-			if retval.IsNil() {
+			if retval.Kind() == reflect.Ptr && retval.IsNil() {
 				retval.Set(reflect.New(retval.Type().Elem()))
 
 				// Re-assign from the new value
